@@ -161,6 +161,87 @@ fn get_len(b: &[u8], pos: &mut usize) -> Result<usize, String> {
     }
     Ok(n)
 }
+/// Decode a `Fmt::Val` encoding back into its value tree (used by the field-value
+/// coverage search of C15).
+pub fn decode_value(b: &[u8]) -> Result<Value, String> {
+    let mut pos = 0;
+    let v = decode(b, &mut pos)?;
+    if pos != b.len() {
+        return Err("trailing bytes".into());
+    }
+    Ok(v)
+}
+
+/// (path, class) of every leaf that holds a value serde shortcuts tend to special-case
+/// (zero, one, default, infinity, empty, each enum variant name).
+pub fn special_leaves(v: &Value) -> Vec<String> {
+    fn fclass(x: f64) -> Option<&'static str> {
+        Some(if x == 0.0 && x.is_sign_negative() {
+            "-0"
+        } else if x == 0.0 {
+            "0"
+        } else if x == 1.0 {
+            "1"
+        } else if x == -1.0 {
+            "-1"
+        } else if x == f64::INFINITY {
+            "inf"
+        } else if x == f64::NEG_INFINITY {
+            "-inf"
+        } else if x.is_nan() {
+            "nan"
+        } else {
+            return None;
+        })
+    }
+    fn walk(v: &Value, path: &str, out: &mut Vec<String>) {
+        match v {
+            Value::F32(b) => {
+                if let Some(c) = fclass(f32::from_bits(*b) as f64) {
+                    out.push(format!("{path}={c}"))
+                }
+            }
+            Value::F64(b) => {
+                if let Some(c) = fclass(f64::from_bits(*b)) {
+                    out.push(format!("{path}={c}"))
+                }
+            }
+            Value::I(i) if (-1..=1).contains(i) => out.push(format!("{path}={i}")),
+            Value::U(u) if *u <= 1 => out.push(format!("{path}={u}")),
+            Value::Bool(b) => out.push(format!("{path}={b}")),
+            Value::None => out.push(format!("{path}=None")),
+            Value::Unit => out.push(format!("{path}=()")),
+            Value::Some(x) => walk(x, &format!("{path}?"), out),
+            Value::Seq(xs) => {
+                if xs.is_empty() {
+                    out.push(format!("{path}=[]"));
+                }
+                // positions beyond the third share one path (long vectors)
+                for (i, x) in xs.iter().enumerate() {
+                    walk(x, &format!("{path}[{}]", i.min(3)), out)
+                }
+            }
+            Value::Map(xs) => {
+                for (k, x) in xs {
+                    let key = match k {
+                        Value::Str(s) => s.clone(),
+                        other => format!("{other:?}"),
+                    };
+                    walk(x, &format!("{path}.{key}"), out)
+                }
+            }
+            Value::Variant(name, x) => {
+                out.push(format!("{path}::{name}"));
+                walk(x, &format!("{path}::{name}"), out)
+            }
+            _ => {}
+        }
+    }
+    let mut out = Vec::new();
+    walk(v, "", &mut out);
+    out
+}
+
 fn decode(b: &[u8], pos: &mut usize) -> Result<Value, String> {
     let tag = take(b, pos, 1)?[0];
     Ok(match tag {
